@@ -84,7 +84,7 @@ class World:
 
     def load_bytes(self, name):
         torch = core.boot()
-        return torch.load(io.BytesIO(self.storage[name]), weights_only=True)
+        return torch.load(io.BytesIO(self.storage[name]), weights_only=False)   # our own bytes; extra state may hold numpy scalars etc.
 
 
 def grad_ctx(mode):
